@@ -14,7 +14,7 @@
    canonically encoded. *)
 From Biscuit Require Import Model.Token Model.Readings Model.Wire Model.ThirdParty Model.BlockWire.
 From Biscuit Require Import Proofs.ChainLayout Proofs.ChainProofs Proofs.ChainOps Proofs.WireProofs Proofs.BuildProofs Proofs.BlockWireProofs.
-From Biscuit Require Model.Schema Proofs.SchemaProofs.
+From Biscuit Require Model.Schema Proofs.SchemaProofs Model.Convert Proofs.ConvertProofs Proofs.ConvertOrder Proofs.ConvertStable.
 Local Open Scope N_scope.
 
 (* the container round-trips: decoding the encoding gives the value back, hence re-encoding
@@ -240,3 +240,161 @@ Example C02_example_block :
   N.of_nat (length (encode_block c2_block)) < 18446744073709551616 /\
   decode_block (encode_block c2_block) = Some c2_block.
 Proof. vm_compute. repeat split. Qed.
+
+(* ---- from the decoded structure to the token block, and back ------------------------------
+   [conv_block canon p ext] is format::convert::proto_block_to_token_block on the decoded
+   structure [p] (Model/Convert.v): terms with sets rebuilt as BTreeSet and maps as BTreeMap
+   (lists in the order of Rust's derived Ord, [Convert.icmp]), operator numbers, scopes, check
+   kinds, key table (curve validity and canonical encoding are the oracle [canon]), symbol
+   table, the version gates and the feature detector; [unconv_block] is
+   token_block_to_proto_block.  [iblock_wf] says what a token block is: every set is what
+   BTreeSet construction yields from its own elements, of one kind, without variables or sets;
+   every map is what BTreeMap construction yields from its own entries; operators are the
+   index-level ones; key indices fit u64; the key table is canonical, valid and duplicate-free;
+   and the block passes the version gates it is loaded through ([iblock_gates], decidable). *)
+Theorem C02_term_convert_roundtrip : forall t : Convert.iterm,
+  Convert.iterm_wf t -> Convert.conv_term (Convert.unconv_term t) = Some t.
+Proof. exact ConvertProofs.conv_unconv_term. Qed.
+Print Assumptions C02_term_convert_roundtrip.
+
+Theorem C02_block_convert_roundtrip : forall (canon : Z -> bytes -> option bytes) (b : Convert.iblock),
+  Convert.iblock_wf canon b ->
+  Convert.conv_block canon (Convert.unconv_block b) (Convert.ib_external b) = Convert.COk b.
+Proof. exact ConvertProofs.conv_unconv_block. Qed.
+Print Assumptions C02_block_convert_roundtrip.
+
+(* bytes -> prost structure -> token block: the serialized contents of a block give back the
+   block ("exposes the same blocks"), composed from the two layers *)
+Theorem C02_block_bytes_to_block : forall (canon : Z -> bytes -> option bytes) (b : Convert.iblock),
+  Convert.iblock_wf canon b ->
+  pblock_ok (Convert.unconv_block b) = true ->
+  N.of_nat (length (encode_block (Convert.unconv_block b))) < 18446744073709551616 ->
+  exists p, decode_block (encode_block (Convert.unconv_block b)) = Some p
+            /\ Convert.conv_block canon p (Convert.ib_external b) = Convert.COk b.
+Proof. exact ConvertProofs.block_bytes_roundtrip. Qed.
+Print Assumptions C02_block_bytes_to_block.
+
+(* non-vacuity: a third-party 3.3 block with a set, a map, a closure, scopes and a key meets
+   the premises; and a wire form that is *not* canonical (set elements out of order and
+   repeated, a map key given twice) converts to the canonical block, which reads back as itself *)
+Definition c2_anykey : Z -> bytes -> option bytes := fun _ k => Some k.
+Definition c2_key : wkey := mkwkey 0%Z (repeat 7 32).
+Definition c2_iblock : Convert.iblock :=
+  Convert.mkiblock [[104; 105]] (Some [99]) 6
+    [Convert.mkipred 1024 [Convert.ITSet [Convert.ITInt (-1)%Z; Convert.ITInt 2%Z];
+                           Convert.ITMap [(Convert.IKInt 3%Z, Convert.ITArray [Convert.ITNull; Convert.ITVar 1]);
+                                          (Convert.IKStr 1024, Convert.ITBytes [0; 255])]]]
+    [Convert.mkirule (Convert.mkipred 3 [Convert.ITVar 0]) [Convert.mkipred 1024 [Convert.ITVar 0]]
+       [[Convert.IOVal (Convert.ITVar 0); Convert.IOClo [4] [Convert.IOVal (Convert.ITVar 4); Convert.IOUn (Expr.UFfiUnk 1024)];
+         Convert.IOBin Expr.BAny]]
+       [Convert.ISAuthority; Convert.ISKey 0]]
+    [Convert.mkicheck [Convert.mkirule (Convert.mkipred 4 []) [] [[Convert.IOVal (Convert.ITBool true)]] [Convert.ISPrevious]]
+                      Convert.ICReject]
+    [Convert.ISPrevious] [c2_key] true.
+Definition c2_unsorted : pblock :=
+  mkpblock [] None (Some 6)
+    [mkppred 1 [PTSet [PTInteger 2%Z; PTInteger (-1)%Z; PTInteger 2%Z];
+                PTMap [(PKStr 5, PTInteger 1%Z); (PKInt 3%Z, PTInteger 2%Z); (PKStr 5, PTInteger 3%Z)]]]
+    [] [] [] [].
+Definition c2_sorted : Convert.iblock :=
+  Convert.mkiblock [] None 6
+    [Convert.mkipred 1 [Convert.ITSet [Convert.ITInt (-1)%Z; Convert.ITInt 2%Z];
+                        Convert.ITMap [(Convert.IKInt 3%Z, Convert.ITInt 2%Z); (Convert.IKStr 5, Convert.ITInt 3%Z)]]]
+    [] [] [] [] false.
+Example C02_example_convert :
+  Convert.iblock_gates c2_iblock = true /\
+  Convert.conv_keys c2_anykey [c2_key] [] = inr [c2_key] /\
+  Convert.conv_block c2_anykey (Convert.unconv_block c2_iblock) true = Convert.COk c2_iblock /\
+  pblock_ok (Convert.unconv_block c2_iblock) = true /\
+  Convert.conv_block c2_anykey c2_unsorted false = Convert.COk c2_sorted /\
+  Convert.conv_block c2_anykey (Convert.unconv_block c2_sorted) false = Convert.COk c2_sorted.
+Proof. vm_compute. repeat split; reflexivity. Qed.
+
+(* ---- every loaded block is such a block ----------------------------------------------------
+   [Convert.icmp] (Rust's derived Ord on datalog::Term, by which BTreeSet keeps its elements) is a
+   strict total order; therefore the set and map loops of the conversion produce sorted,
+   duplicate-free lists, which are fixed points of the construction; therefore whatever the
+   conversion returns is well formed, and a block that was loaded, written back and loaded again
+   is the same block.  [canon_ok] is what is assumed of the key oracle: a canonical encoding is
+   itself valid and canonical, and a canonical ed25519 key is 32 bytes long. *)
+Theorem C02_term_order_strict_total :
+  (forall a b, Convert.icmp a b = Eq -> a = b) /\
+  (forall a, Convert.icmp a a = Eq) /\
+  (forall a b, Convert.icmp b a = CompOpp (Convert.icmp a b)) /\
+  (forall a b c, Convert.icmp a b = Lt -> Convert.icmp b c = Lt -> Convert.icmp a c = Lt).
+Proof.
+  exact (conj ConvertOrder.icmp_eq (conj ConvertOrder.icmp_refl (conj ConvertOrder.icmp_anti ConvertOrder.icmp_trans))).
+Qed.
+Print Assumptions C02_term_order_strict_total.
+
+Theorem C02_converted_terms_wellformed : forall (t : pterm) (i : Convert.iterm),
+  Convert.conv_term t = Some i -> Convert.iterm_wf i.
+Proof. exact ConvertOrder.conv_term_wf. Qed.
+Print Assumptions C02_converted_terms_wellformed.
+
+Theorem C02_loaded_block_stable :
+  forall (canon : Z -> bytes -> option bytes) (p : pblock) (ext : bool) (b : Convert.iblock),
+    ConvertStable.canon_ok canon ->
+    pblock_ok p = true ->
+    Convert.conv_block canon p ext = Convert.COk b ->
+    Convert.iblock_wf canon b /\
+    Convert.conv_block canon (Convert.unconv_block b) ext = Convert.COk b.
+Proof.
+  intros canon p ext b Hc Hok H. pose proof (ConvertStable.pblock_ok_scopes p Hok) as Hr. split.
+  - exact (ConvertStable.conv_block_wf canon p ext b Hc Hr H).
+  - exact (ConvertStable.conv_block_stable canon p ext b Hc Hr H).
+Qed.
+Print Assumptions C02_loaded_block_stable.
+
+(* non-vacuity: an oracle that meets [canon_ok] (every key of the right size is its own canonical
+   form), under which the unsorted wire form above -- a [pblock_ok] value -- loads *)
+Definition c2_canon32 : Z -> bytes -> option bytes :=
+  fun a k => if (a =? 0)%Z && negb (Nat.eqb (length k) 32) then None else Some k.
+Example C02_example_canon_ok : ConvertStable.canon_ok c2_canon32.
+Proof.
+  unfold ConvertStable.canon_ok, c2_canon32. split.
+  - intros a k c H. destruct ((a =? 0)%Z && negb (Nat.eqb (length k) 32)) eqn:E; [discriminate|].
+    injection H as <-. now rewrite E.
+  - intros k c H. cbn [Z.eqb andb] in H. destruct (Nat.eqb (length k) 32) eqn:E; cbn [negb] in H; [|discriminate].
+    injection H as <-. now apply PeanoNat.Nat.eqb_eq.
+Qed.
+Example C02_example_stable :
+  pblock_ok c2_unsorted = true /\
+  Convert.conv_block c2_canon32 c2_unsorted false = Convert.COk c2_sorted /\
+  Convert.conv_block c2_canon32 (Convert.unconv_block c2_iblock) true = Convert.COk c2_iblock /\
+  Convert.icmp (Convert.ITSet [Convert.ITInt 1%Z]) (Convert.ITSet [Convert.ITInt 1%Z; Convert.ITInt 0%Z]) = Lt /\
+  Convert.icmp (Convert.ITStr 5) (Convert.ITInt 7%Z) = Gt.
+Proof. vm_compute. repeat split; reflexivity. Qed.
+
+(* ---- the layers composed --------------------------------------------------------------------
+   What a built token's bytes reload to carries, for every block whose contents were written
+   from a token block [ib] (as the builders do: token_block_to_proto_block, then prost), bytes
+   that decode and convert to [ib] again: "exposes the same blocks", from the container down to
+   the terms of the Datalog. *)
+Theorem C02_built_tokens_expose_their_blocks :
+  forall verify_sig pub sign key_canon (unverified : bool) (b : hbuild) (ops : list hop) t rk
+         (canon : Z -> bytes -> option bytes),
+  (forall a sk k m, pub a sk = Some k -> verify_sig k m (sign a sk m) = true) ->
+  (forall a sk k, pub a sk = Some k -> pk_alg k = a) ->
+  (forall a sk k, pub a sk = Some k -> key_canon (pk_alg k) (pk_bytes k) = Some (pk_bytes k)) ->
+  kp_pub pub (hb_root b) = Some rk ->
+  run_history verify_sig pub sign key_canon unverified b ops = TOk t ->
+  wtoken_ok (to_wire t) = true ->
+  exists t', token_from_bytes verify_sig key_canon pub rk (token_bytes t) = Some t' /\
+    forall (sb : sblock) (ib : Convert.iblock),
+      In sb (t_authority t :: t_blocks t) ->
+      b_data sb = encode_block (Convert.unconv_block ib) ->
+      Convert.iblock_wf canon ib ->
+      pblock_ok (Convert.unconv_block ib) = true ->
+      N.of_nat (length (encode_block (Convert.unconv_block ib))) < 18446744073709551616 ->
+      In sb (t_authority t' :: t_blocks t') /\
+      exists p, decode_block (b_data sb) = Some p /\
+                Convert.conv_block canon p (Convert.ib_external ib) = Convert.COk ib.
+Proof.
+  intros vs pub sign kc unv b ops t rk canon H1 H2 H3 Hr Hh Hw.
+  destruct (C02_built_tokens_roundtrip vs pub sign kc unv b ops t rk H1 H2 H3 Hr Hh Hw) as [E _].
+  exists t. split; [exact E|].
+  intros sb ib Hin Hd Hwf Hok Hlen. split; [exact Hin|]. rewrite Hd.
+  exact (ConvertProofs.block_bytes_roundtrip canon ib Hwf Hok Hlen).
+Qed.
+Print Assumptions C02_built_tokens_expose_their_blocks.
